@@ -21,6 +21,11 @@ import SieveModel.Lemmas.Readback
 * `written_name_marker_comes_back` / `written_markers_come_back`: the three steps composed — the line the renderer writes
   (`prefix + text + "\n"`) lexes as one hash comment of that length, the parser's `strip()` leaves it alone (text not ending
   in white space, as the property's quantifier says), and the loader returns the text.
+* set level (`load_is_specLoad`, `loaded_contents_are_the_commands_in_order`, `loaded_filter_depends_on_its_own_command_only`,
+  `command_without_comments_loads_bare`): `from_parser_result` yields one filter per top-level command that is not a
+  `require`, in the order of the script, each with that very command as content, enabled unless the command is an `if false`
+  wrapper, and with name and description computed from that command's own comments (and its ordinal) alone — nothing is
+  carried over from a neighbouring filter.
 The loader and the renderer are tied to the code by the `factory-roundtrip` correspondence (build → render → parse → load
 → read back, real code against the composed Lean models); the rest of the construction and loading logic of `factory.py`
 is decided by the render → parse → reload oracle.
@@ -115,6 +120,73 @@ example : Readback.nameDescL (sb "# Filter: ") (sb "# Description: ") [sb "# Fil
     = (sb "spam rule", sb "drop it") := by decide
 example : Readback.nameDescL (sb "# Filter: ") (sb "# Description: ") [sb "# Filter: a # Filter: b"] (sb "Unnamed rule 1", [])
     = (sb "a b", []) := by decide
+
+/-! ## the loader at set level (`from_parser_result`): one filter per non-`require` command, in order, each made from
+    its own command alone -/
+section SetLevel
+open Readback
+
+/-- what the loader makes of ONE top-level command: name and description from that command's own comments (the number
+    only names an unnamed rule), the command itself as content, enabled unless it is an `if false` wrapper -/
+def loadedOf (np dp : Bytes) (cpt : Nat) (f : Node) : Loaded :=
+  { name := (nameDescL np dp f.comments (sb "Unnamed rule " ++ B.natToDec cpt, [])).1,
+    description := (nameDescL np dp f.comments (sb "Unnamed rule " ++ B.natToDec cpt, [])).2,
+    content := f, enabled := !isDisabled f }
+
+/-- the loader as a specification: one filter per top-level command that is not a `require`, in order -/
+def specLoad (np dp : Bytes) : List Node → Nat → List Loaded
+  | [], _ => []
+  | f :: r, cpt => if f.name == sb "require" then specLoad np dp r cpt else loadedOf np dp cpt f :: specLoad np dp r (cpt + 1)
+
+theorem load_is_specLoad (np dp : Bytes) (ns : List Node) (cpt : Nat) (reqs : List Bytes) (acc : List Loaded) :
+    (load np dp ns cpt reqs acc).2 = acc.reverse ++ specLoad np dp ns cpt := by
+  induction ns generalizing cpt reqs acc with
+  | nil => simp [load, specLoad]
+  | cons f r ih =>
+    unfold load specLoad
+    by_cases h : (f.name == sb "require") = true
+    · simp only [h, if_true]
+      exact ih _ _ _
+    · have h' : (f.name == sb "require") = false := by simpa using h
+      simp only [h', Bool.false_eq_true, ↓reduceIte]
+      rw [ih]
+      simp [loadedOf]
+
+theorem loaded_contents_are_the_commands_in_order (np dp : Bytes) (ns : List Node) (cpt : Nat) (reqs : List Bytes) :
+    ((load np dp ns cpt reqs []).2.map (·.content)) = ns.filter (fun f => !(f.name == sb "require")) := by
+  rw [load_is_specLoad]
+  simp only [List.reverse_nil, List.nil_append]
+  induction ns generalizing cpt with
+  | nil => simp [specLoad]
+  | cons f r ih =>
+    unfold specLoad
+    by_cases h : (f.name == sb "require") = true
+    · simp [h, ih]
+    · simp [h, ih, loadedOf]
+
+theorem loaded_filter_depends_on_its_own_command_only (np dp : Bytes) (ns : List Node) (cpt : Nat) (reqs : List Bytes)
+    (l : Loaded) (h : l ∈ (load np dp ns cpt reqs []).2) :
+    ∃ k, l = loadedOf np dp k l.content ∧ l.enabled = !isDisabled l.content := by
+  rw [load_is_specLoad] at h
+  simp only [List.reverse_nil, List.nil_append] at h
+  induction ns generalizing cpt with
+  | nil => simp [specLoad] at h
+  | cons f r ih =>
+    unfold specLoad at h
+    by_cases hr : (f.name == sb "require") = true
+    · simp only [hr, if_true] at h; exact ih _ h
+    · have hr' : (f.name == sb "require") = false := by simpa using hr
+      simp only [hr', Bool.false_eq_true, ↓reduceIte, List.mem_cons] at h
+      rcases h with h | h
+      · exact ⟨cpt, by subst h; simp [loadedOf], by subst h; simp [loadedOf]⟩
+      · exact ih _ h
+
+/-- a command that carries no marker comment is loaded without description and under its ordinal, whatever the commands
+    before it carried: nothing is inherited from a neighbour -/
+theorem command_without_comments_loads_bare (np dp : Bytes) (k : Nat) (f : Node) (h : f.comments = []) :
+    (loadedOf np dp k f).description = [] ∧ (loadedOf np dp k f).name = sb "Unnamed rule " ++ B.natToDec k := by
+  simp [loadedOf, h, nameDescL]
+end SetLevel
 
 /-- the lexer rules of `sievelib/parser.py` (names, order, patterns, flags, white space) are the modelled ones -/
 theorem lexer_is_the_modelled_one :
